@@ -4,6 +4,7 @@ mod dump;
 mod keys;
 mod keytab;
 mod overrides;
+mod looprun;
 mod paired;
 mod parseprobe;
 mod reload;
@@ -358,6 +359,7 @@ fn main() {
         "seq-tables" => seqtab::cmd(rest),
         "cfgeq" => cfgeq::cmd(rest),
         "crash" => crash::cmd_crash(rest),
+        "loop-run" => looprun::cmd_loop_run(rest),
         "paired" => paired::cmd_paired(rest),
         "reload" => reload::cmd(rest),
         "reload-edges" => reload::cmd_edges(rest),
